@@ -294,10 +294,48 @@ func framed(body []byte) []byte {
 	return append(out, body...)
 }
 
+// servedFuncs are the functions of the interface the child serves (the first interface of
+// the generated programs, as in TestC05NetChild).
+var servedFuncs = func() []*rc.Func {
+	schema, err := rc.ParseSchema([]byte(regp.SchemaJSON))
+	if err != nil {
+		return nil
+	}
+	best := ""
+	var fs []*rc.Func
+	for _, it := range schema.Ifaces {
+		if k := it.Module + "." + it.Name; len(it.Funcs) > 0 && (best == "" || k < best) {
+			best, fs = k, it.Funcs
+		}
+	}
+	return fs
+}()
+
+var jsonValues = []string{"7", "-1", "1.5", "1e400", "\"s\"", "\"\"", "null", "true", "false", "[]", "[1,\"a\",null]", "[[[]]]", "{}", "{\"a\":1}", "{\"a\":{\"b\":[]}}", "\"\\u0000\"", "12345678901234567890"}
+
 func validRequest(rt *rapid.T) []byte {
 	ver := rapid.SampledFrom([]int16{1, 3, 5}).Draw(rt, "ver")
 	var buf []byte
+	fnOverride := ""
+	if ver == 5 && len(servedFuncs) > 0 && rapid.IntRange(0, 3).Draw(rt, "typedJSON") > 0 {
+		// a JSON-version request for a function the child really serves: a well-formed JSON
+		// object under the function's parameter names, each with a JSON value of an arbitrary
+		// type (number where a string is declared, null, arrays, objects ...)
+		f := servedFuncs[rapid.IntRange(0, len(servedFuncs)-1).Draw(rt, "servedFn")]
+		fnOverride = f.Name
+		var parts []string
+		for _, a := range f.Args {
+			if rapid.IntRange(0, 4).Draw(rt, "hasArg") == 0 {
+				continue
+			}
+			parts = append(parts, fmt.Sprintf("%q:%s", a.Name, rapid.SampledFrom(jsonValues).Draw(rt, "jsonVal")))
+		}
+		ver = 50 // marker, reset below
+		buf = []byte("{" + strings.Join(parts, ",") + "}")
+	}
 	switch ver {
+	case 50:
+		ver = 5
 	case 3:
 		var e rc.Enc
 		e.Head(rc.WMap, 0)
@@ -314,6 +352,9 @@ func validRequest(rt *rapid.T) []byte {
 		buf = e.Buf
 	}
 	fn := rapid.SampledFrom([]string{"fn0", "fn1", "Fn2", "tars_ping", "nope"}).Draw(rt, "fn")
+	if fnOverride != "" {
+		fn = fnOverride
+	}
 	r := rpcprops.RawReq{Version: ver, PacketType: int8(rapid.IntRange(0, 1).Draw(rt, "pt")), ReqID: rapid.Int32().Draw(rt, "id"), Servant: "Verif.Obj", Func: fn, Buffer: buf,
 		Timeout: rapid.SampledFrom([]int32{0, 1, 60000, -1}).Draw(rt, "to"), Context: map[string]string{"k": "v"}, Status: map[string]string{}}
 	// message-type flags and the status / context entries the framework itself interprets
